@@ -818,7 +818,12 @@ class HistogramBase(abc.ABC):
             "errors2": a_dict.get("errors2"),
         }
         if "missed" in a_dict:
-            kwargs["missed"] = a_dict["missed"]
+            missed = a_dict["missed"]
+            if np.ndim(missed) == 1 and len(missed) == 1:
+                missed = missed[0]
+            kwargs["missed"] = missed
+        if "missed_keep" in a_dict:
+            kwargs["keep_missed"] = a_dict["missed_keep"]
         kwargs.update(a_dict.get("meta_data", {}))
         if len(kwargs["binnings"]) > 2:
             kwargs["dimension"] = len(kwargs["binnings"])
